@@ -2,7 +2,7 @@
     Property theorems only, about the per-window methods REGENERATED from the source (Gen/GenScalars.v;
     translation validated by correspondence K5).  [eql] = elementwise equality of rationals. *)
 From Coq Require Import QArith Qabs List Bool String.
-From IV Require Import QL Dist Ecdf QListFacts GenUtils GenScalars RatLS C16_compose C03_proofs C02_proofs C04_proofs C01_proofs C09_proofs RatLS_proofs.
+From IV Require Import QL Dist Ecdf QListFacts GenUtils GenScalars RatLS C16_compose C03_proofs C02_proofs C04_proofs C01_proofs C09_proofs RatLS_proofs Affine Affine_debiasers Driver Driver_rel ApplyLocation_units.
 Import ListNotations.
 Open Scope Q_scope.
 
@@ -62,3 +62,88 @@ Theorem C04_ratls_fit_affine : forall a b l, 0 < a -> l <> [] -> ~ mad l == 0 ->
 Proof. exact ratls_fit_affine. Qed.
 Print Assumptions C04_ratls_fit_affine.
 
+
+(** ---- the empirical-CDF methods (CDFt, non-parametric QuantileMapping, QuantileDeltaMapping).
+    [ARL a b l l'] : l' is l expressed in the other unit, element by element (l'_i == a*l_i + b); it covers
+    both an exactly converted series and one that is equal up to ==.  Proved from the relational
+    parametricity of merge sort and of the ECDF / quantile toolkit (Proofs/Affine.v), for the step and the
+    interpolated ECDF and all nine inverse-CDF methods. *)
+Theorem C04_ecdf_invariant : forall a b, 0 < a -> forall m x x' y y',
+  m = step_function \/ m = linear_interpolation -> Affine.ARL a b x x' -> Affine.AR a b y y' -> ecdf m x' y' = ecdf m x y.
+Proof. exact Affine.ecdf_rel. Qed.
+Print Assumptions C04_ecdf_invariant.
+
+Theorem C04_iecdf_equivariant : forall a b, 0 < a -> forall m x x' p,
+  Affine.ARL a b x x' -> x <> [] -> 0 <= p <= 1 -> Affine.AR a b (iecdf m x p) (iecdf m x' p).
+Proof. exact Affine.iecdf_rel. Qed.
+Print Assumptions C04_iecdf_equivariant.
+
+Theorem C04_cdft_unit_change : forall em im, em = step_function \/ em = linear_interpolation ->
+  forall a b, 0 < a -> forall obs obs' hist hist' fut fut',
+  Affine.ARL a b obs obs' -> Affine.ARL a b hist hist' -> Affine.ARL a b fut fut' -> obs <> [] -> hist <> [] -> fut <> [] ->
+  exists out out', cdft_apply_mapping "additive" em im obs hist fut = Some out /\
+                   cdft_apply_mapping "additive" em im obs' hist' fut' = Some out' /\ Affine.ARL a b out out'.
+Proof. exact Affine_debiasers.cdft_unit_change. Qed.
+Print Assumptions C04_cdft_unit_change.
+
+Theorem C04_qm_nonparametric_unit_change : forall (P : Type) (D : dist P) thr a b, 0 < a ->
+  forall det, det = "no_detrending"%string \/ det = "additive"%string ->
+  forall obs obs' hist hist' fut fut', Affine.ARL a b obs obs' -> Affine.ARL a b hist hist' -> Affine.ARL a b fut fut' ->
+  obs <> [] -> hist <> [] -> fut <> [] ->
+  exists out out', qm_apply_on_window det "nonparametric" D thr obs hist fut = Some out /\
+                   qm_apply_on_window det "nonparametric" D thr obs' hist' fut' = Some out' /\ Affine.ARL a b out out'.
+Proof. exact @Affine_debiasers.qm_nonparam_unit_change. Qed.
+Print Assumptions C04_qm_nonparametric_unit_change.
+
+Theorem C04_qdm_unit_change : forall (P : Type) (D : dist P) em t cth, em = step_function \/ em = linear_interpolation ->
+  forall a b, 0 < a -> forall f f' fo fh fo' fh', Affine.ARL a b f f' ->
+  (forall p, ppf D fo' p == a * ppf D fo p + b) -> (forall p, ppf D fh' p == a * ppf D fh p + b) ->
+  exists out out', qdm_apply_debiasing_steps em t "absolute" D false cth f fo fh = Some out /\
+                   qdm_apply_debiasing_steps em t "absolute" D false cth f' fo' fh' = Some out' /\ Affine.ARL a b out out'.
+Proof. exact @Affine_debiasers.qdm_abs_unit_change. Qed.
+Print Assumptions C04_qdm_unit_change.
+
+(** non-vacuity: a concrete CDFt window in Kelvin and in Celsius *)
+Example C04_cdft_nonvacuous :
+  let o := [280; 283; 285; 290] in let h := [282; 284; 289; 291; 295] in let f := [284; 288; 293] in
+  let k := map (fun x => x - 273) in
+  match cdft_apply_mapping "additive" linear_interpolation linear o h f, cdft_apply_mapping "additive" linear_interpolation linear (k o) (k h) (k f) with
+  | Some out, Some out' => forallb (fun p => Qeq_bool (snd p) (fst p - 273)) (combine out out') = true /\ List.length out = 3%nat
+  | _, _ => False
+  end.
+Proof. vm_compute. split; reflexivity. Qed.
+
+(** ---- through apply_location with a running window over the year (Model/Driver.v scatter loop over the
+    REGENERATED window functions): for every window length and step and every calendar, if each window
+    that is used holds data of all three series, then both runs succeed or fail together and every time
+    step's value is the same in the other unit.  Generic in the per-window method, and instantiated. *)
+Theorem C04_apply_location_unit_change : forall L S dobs dhist dfut obs hist fut obs' hist' fut' (W : list Q -> list Q -> list Q -> list Q) a b,
+  (forall o o' h h' f f', o <> [] -> h <> [] -> f <> [] -> Affine.ARL a b o o' -> Affine.ARL a b h h' -> Affine.ARL a b f f' -> Affine.ARL a b (W o h f) (W o' h' f')) ->
+  Driver_rel.windows_nonempty L S dfut dobs dhist dfut obs hist fut ->
+  Affine.ARL a b obs obs' -> Affine.ARL a b hist hist' -> Affine.ARL a b fut fut' ->
+  ApplyLocation_units.same_in_other_unit a b (Driver.driver_rw Q L S dobs dhist dfut obs hist fut W) (Driver.driver_rw Q L S dobs dhist dfut obs' hist' fut' W).
+Proof. exact ApplyLocation_units.apply_location_unit_change. Qed.
+Print Assumptions C04_apply_location_unit_change.
+
+Theorem C04_cdft_apply_location : forall em im a b, em = step_function \/ em = linear_interpolation -> 0 < a ->
+  forall L S dobs dhist dfut obs hist fut obs' hist' fut',
+  Driver_rel.windows_nonempty L S dfut dobs dhist dfut obs hist fut -> Affine.ARL a b obs obs' -> Affine.ARL a b hist hist' -> Affine.ARL a b fut fut' ->
+  ApplyLocation_units.same_in_other_unit a b (Driver.driver_rw Q L S dobs dhist dfut obs hist fut (ApplyLocation_units.W_cdft em im))
+                                             (Driver.driver_rw Q L S dobs dhist dfut obs' hist' fut' (ApplyLocation_units.W_cdft em im)).
+Proof. exact ApplyLocation_units.cdft_apply_location_unit_change. Qed.
+Print Assumptions C04_cdft_apply_location.
+
+Theorem C04_linear_scaling_apply_location : forall a b, 0 < a -> forall L S dobs dhist dfut obs hist fut obs' hist' fut',
+  Driver_rel.windows_nonempty L S dfut dobs dhist dfut obs hist fut -> Affine.ARL a b obs obs' -> Affine.ARL a b hist hist' -> Affine.ARL a b fut fut' ->
+  ApplyLocation_units.same_in_other_unit a b (Driver.driver_rw Q L S dobs dhist dfut obs hist fut (ApplyLocation_units.W_ls "additive"))
+                                             (Driver.driver_rw Q L S dobs dhist dfut obs' hist' fut' (ApplyLocation_units.W_ls "additive")).
+Proof. exact ApplyLocation_units.ls_apply_location_unit_change. Qed.
+Print Assumptions C04_linear_scaling_apply_location.
+
+Theorem C04_qm_nonparametric_apply_location : forall (P : Type) (D : dist P) thr det a b, det = "no_detrending"%string \/ det = "additive"%string -> 0 < a ->
+  forall L S dobs dhist dfut obs hist fut obs' hist' fut',
+  Driver_rel.windows_nonempty L S dfut dobs dhist dfut obs hist fut -> Affine.ARL a b obs obs' -> Affine.ARL a b hist hist' -> Affine.ARL a b fut fut' ->
+  ApplyLocation_units.same_in_other_unit a b (Driver.driver_rw Q L S dobs dhist dfut obs hist fut (ApplyLocation_units.W_qm_np D thr det))
+                                             (Driver.driver_rw Q L S dobs dhist dfut obs' hist' fut' (ApplyLocation_units.W_qm_np D thr det)).
+Proof. exact @ApplyLocation_units.qm_np_apply_location_unit_change. Qed.
+Print Assumptions C04_qm_nonparametric_apply_location.
